@@ -260,7 +260,11 @@ fn has_sibling_duplicates(e: &Element) -> Option<String> {
     for k in e.sub_elements() {
         if let Some(n) = k.item_name() {
             if !seen.insert((k.element_name().to_string(), n.clone())) {
-                return Some(format!("two <{}> siblings named {n:?} below {}", k.element_name(), e.xml_path()));
+                let mut kinds: Vec<String> = e.sub_elements().filter(|x| x.is_identifiable()).map(|x| x.element_name().to_string()).collect();
+                kinds.sort();
+                kinds.dedup();
+                let tag = if kinds.len() >= 2 { "" } else { "[ONE-KIND]" };
+                return Some(format!("{tag}two <{}> siblings named {n:?} below {}", k.element_name(), e.xml_path()));
             }
         }
     }
@@ -426,7 +430,9 @@ pub fn run_case(c: &MergeCase, st: &mut Stats) -> Result<(), Failure> {
             }
         }
         if let Some(d) = has_sibling_duplicates(&m.root_element()) {
-            return Err(fail("merge:duplicate-of-existing-identifiable-imported", format!("load order {:?}: {d}", order)));
+            // KF-C09-1 needs named siblings of different kinds under one parent; duplicates among siblings of one kind are not it
+            let sig = if d.starts_with("[ONE-KIND]") { "merge:duplicate-imported:named-siblings-of-one-kind" } else { "merge:duplicate-of-existing-identifiable-imported" };
+            return Err(fail(sig, format!("load order {:?}: {d}", order)));
         }
         let got = canon_model(&m.root_element(), &names, true);
         if got != expected {
